@@ -6,6 +6,7 @@
 package ledger
 
 import (
+	"os"
 	"encoding/json"
 	"fmt"
 	"sort"
@@ -46,6 +47,7 @@ type Plan struct {
 	Sync    *SyncPlan   `json:"sync,omitempty"`
 	// C06: after the main run, a validly signed header with a wrong PrevStateRoot is recorded ahead of the blocks
 	HeadersFirst bool `json:"headers_first,omitempty"`
+	KnownHeader  bool `json:"known_header,omitempty"` // C06: genuine header recorded ahead of the block, block with another witness
 }
 
 // Engine implements sim.Engine.
@@ -129,7 +131,7 @@ func (Engine) Draw(rt *rapid.T, prop, tier string) any {
 	for i := 0; i < nrep; i++ {
 		p.Locals = append(p.Locals, drawLocal(rt, len(p.Blocks)))
 	}
-	p.Election = max(0, rapid.IntRange(0, 9).Draw(rt, "election")-3)
+	p.Election = drawElection(rt)
 	nt := rapid.IntRange(0, 3).Draw(rt, "nticks")
 	if prop == "C11" {
 		// pruning replicas, short retention, frequent timer flushes (GC runs after timer-driven flushes only)
@@ -393,6 +395,9 @@ func (r *run) produce(bp BlockPlan, pre []*transaction.Transaction) (*block.Bloc
 	}
 	r.ref[b.Index] = obs
 	r.log.Addf("block %d txs=%d root=%s", b.Index, len(txs), obs.Sections["stateroot"])
+	if os.Getenv("VERIF_GOVDEBUG") != "" {
+		r.log.Addf("  gov %s", obs.Detail["governance"])
+	}
 	r.tallyAERs(b)
 	return b, true
 }
@@ -464,6 +469,7 @@ func (r *run) newBlock(txs []*transaction.Transaction, bp BlockPlan) *block.Bloc
 	}
 	if hash.Hash160(ns) != hash.Hash160(vs) {
 		r.out.Probes["validator_set_change"]++
+		r.log.Addf("block %d hands the chain over to other validators", h+1)
 	}
 	return b
 }
